@@ -1,11 +1,11 @@
 ---------------------------- MODULE MC_IOBulk ----------------------------
 EXTENDS IOBulk
 F(d, s, e, r) == [dir |-> d, stem |-> s, ext |-> e, rank |-> r]
-\* ranks follow Python's sorted() of the pathlib paths (checked by the adapter): a.ljson < a.png < a.pts < b.bmp < b.pts < m.pkl
-\* < n.pkl.gz < notes.txt < sub/d.png < sub/d.pts
-PoolC == {F("", "a", "ljson", 1), F("", "a", "png", 2), F("", "a", "pts", 3), F("", "b", "bmp", 4), F("", "b", "pts", 5),
-          F("", "m", "pkl", 6), F("", "n", "pkl.gz", 7), F("", "notes", "txt", 8), F("sub", "d", "png", 9), F("sub", "d", "pts", 10)}
-PoolQ == {F("", "a", "ljson", 1), F("", "a", "png", 2), F("", "a", "pts", 3), F("", "b", "bmp", 4), F("", "m", "pkl", 6),
-          F("", "n", "pkl.gz", 7), F("", "notes", "txt", 8), F("sub", "d", "png", 9)}
+\* ranks follow Python's sorted() of the pathlib paths (checked by the adapter): a.ljson < a.png < a.pts < ab.pts < b.bmp < b.pts
+\* < m.pkl < n.pkl.gz < notes.txt < sub/d.png < sub/d.pts   (ab.pts shares a prefix, not the stem, with a.png)
+PoolC == {F("", "a", "ljson", 1), F("", "a", "png", 2), F("", "a", "pts", 3), F("", "ab", "pts", 4), F("", "b", "bmp", 5), F("", "b", "pts", 6),
+          F("", "m", "pkl", 7), F("", "n", "pkl.gz", 8), F("", "notes", "txt", 9), F("sub", "d", "png", 10), F("sub", "d", "pts", 11)}
+PoolQ == {F("", "a", "ljson", 1), F("", "a", "png", 2), F("", "a", "pts", 3), F("", "ab", "pts", 4), F("", "b", "bmp", 5),
+          F("", "n", "pkl.gz", 8), F("", "notes", "txt", 9), F("sub", "d", "png", 10)}
 PatAll == {"*", "*.png", "a.*", "sub/*", "**/*", "dir"}
 =============================================================================
